@@ -1,4 +1,5 @@
 import AriVerif.Conc.Item
+import AriVerif.Conc.InvCheck
 import AriVerif.Framing
 import AriVerif.Requests
 import AriVerif.Init
@@ -168,12 +169,12 @@ def gstep (s : DState) (tid : String) (op : OpClass) (lsnItem : String) : Option
             (liftItem { s with workQ := s.workQ.tail, running := s.running + 1 } x (.start k))
           else none
         | .itemLock, .atLoop => liftItem s x (.pop k)
-        | .put, .put _ _ => liftItem s x (.put k)
+        | .put, .put _ _ _ => liftItem s x (.put k)
         | .lsnPutOp, .inCall _ _ =>
           if lsnItem = x then liftItem s x (.lsnPut (.inst k)) else liftItem s lsnItem (.lsnPut (.ext (1000 + n)))
         | .mgrLock, .setCode _ => liftItem s x (.setCode k)
         | .mgrLock, .eosRead _ => liftItem s x (.eosRead k)
-        | .mgrLock, .clearCode => liftItem s x (.clearCode k)
+        | .mgrLock, .clearCode _ => liftItem s x (.clearCode k)
         | .mgrLock, .dec =>
           (liftItem s x (.dec k)).map fun (s1, e) => ({ s1 with running := s1.running - 1 }, e)
         | .lsnLock kind, .inCall _ _ =>
@@ -212,6 +213,11 @@ def genabled (s : DState) : List String :=
 
 def showOpt (o : Option String) : String := match o with | some x => x | none => "-"
 def showB (b : Bool) : String := if b then "t" else "f"
+
+/-- first (item, clause) on which the candidate invariant fails among items whose history is well-formed. -/
+def ginvFail (s : DState) : Option String :=
+  s.items.findSome? fun (x, i) =>
+    if wfB i.arr then (invFail i).map fun c => x ++ ":" ++ c else none
 
 /-- canonical snapshot (the harness prints the real objects in exactly this form). -/
 def gsnap (s : DState) : String :=
